@@ -169,7 +169,6 @@ Qed.
 Lemma hdr_n_eq : hdr_n = 16%nat. Proof. reflexivity. Qed.
 Lemma fhdr_n_eq : fhdr_n = 7%nat. Proof. reflexivity. Qed.
 Lemma entry_header_size_eq : entry_header_size = 16. Proof. reflexivity. Qed.
-Lemma max_payload_lt : max_payload < 256 ^ N.of_nat 4. Proof. reflexivity. Qed.
 
 Lemma skipn_skipn' : forall (l : list N) a b, skipn a (skipn b l) = skipn (b + a) l.
 Proof.
@@ -180,43 +179,40 @@ Qed.
 Section WalProofs.
   Variable crc : list N -> N.
   Variable classify : list N -> cls.
+  Variable maxp : N.
 
   Notation frame := (frame crc).
   Notation frames := (frames crc).
   Notation file := (file crc).
-  Notation read_entry := (read_entry crc classify).
-  Notation read_loop := (read_loop crc classify).
-  Notation read_all := (read_all crc classify).
+  Notation read_entry := (read_entry crc classify maxp).
+  Notation read_loop := (read_loop crc classify maxp).
+  Notation read_all := (read_all crc classify maxp).
   Notation decode_payload := (decode_payload classify).
   Notation emit := (emit classify).
   Notation emitted := (emitted classify).
 
   Definition wf_entry (e : entry) : Prop :=
-    e_ts e < 256 ^ N.of_nat 8 /\ len_N (e_payload e) <= max_payload /\ bytes (e_payload e).
-
-  Definition no_panic (es : list entry) : Prop :=
-    Forall (fun e => decode_payload (e_payload e) <> DPanic) es.
+    e_ts e < 256 ^ N.of_nat 8 /\ len_N (e_payload e) <= maxp /\ bytes (e_payload e).
 
   (* what readEntry does once the three header fields and the rest are named *)
   Definition after_header (len ts sum : N) (R : list N) : rd :=
-    if max_payload <? len then RSkip R
+    if maxp <? len then RLost
     else if len_N R <? len then RSkip []
     else
       let p := firstn (N.to_nat len) R in
       let rest' := skipn (N.to_nat len) R in
       if crc p =? sum then
         match decode_payload p with
-        | DPanic => RPanic
         | DBad => RSkip rest'
         | DOk k db d => REmit (mkR ts k db d) rest'
         end
-      else RSkip rest'.
+      else RLost.
 
   Lemma read_entry_parts : forall L T C R,
     length L = 4%nat -> length T = 8%nat -> length C = 4%nat ->
     read_entry (L ++ T ++ C ++ R) = after_header (be_decode L) (be_decode T) (be_decode C) R.
   Proof.
-    intros L T C R HL HT HC. unfold Model.read_entry, after_header.
+    intros L T C R HL HT HC. unfold Model.read_entry, Model.read_entry_gen, after_header.
     replace (len_N (L ++ T ++ C ++ R) <? entry_header_size) with false.
     2:{ symmetry. apply N.ltb_ge. unfold len_N. rewrite !app_length, HL, HT, HC. rewrite entry_header_size_eq. lia. }
     rewrite hdr_n_eq.
@@ -232,23 +228,23 @@ Section WalProofs.
     rewrite H1, H2, H3, H4. reflexivity.
   Qed.
 
+  Hypothesis maxp_lt : maxp < 256 ^ N.of_nat 4.
   Hypothesis crc_range : forall p, crc p < 256 ^ N.of_nat 4.
 
   Definition step_of (e : entry) (ts : N) (rest : list N) : rd :=
     match decode_payload (e_payload e) with
-    | DPanic => RPanic
     | DBad => RSkip rest
     | DOk k db d => REmit (mkR ts k db d) rest
     end.
 
   Lemma after_header_exact : forall P ts rest,
-    len_N P <= max_payload ->
+    len_N P <= maxp ->
     after_header (len_N P) ts (crc P) (P ++ rest) =
     match decode_payload P with
-    | DPanic => RPanic | DBad => RSkip rest | DOk k db d => REmit (mkR ts k db d) rest end.
+    | DBad => RSkip rest | DOk k db d => REmit (mkR ts k db d) rest end.
   Proof.
     intros P ts rest Hmax. unfold after_header.
-    replace (max_payload <? len_N P) with false by (symmetry; apply N.ltb_ge; assumption).
+    replace (maxp <? len_N P) with false by (symmetry; apply N.ltb_ge; assumption).
     replace (len_N (P ++ rest) <? len_N P) with false
       by (symmetry; apply N.ltb_ge; unfold len_N; rewrite app_length; lia).
     unfold len_N. rewrite Nat2N.id.
@@ -264,49 +260,34 @@ Section WalProofs.
   Proof.
     intros e rest [Hts [Hmax Hb]]. unfold Model.frame. rewrite <- !app_assoc.
     rewrite read_entry_parts by apply be_encode_length.
-    rewrite (be_decode_encode_small 4) by (pose proof max_payload_lt; lia).
+    rewrite (be_decode_encode_small 4) by lia.
     rewrite (be_decode_encode_small 8) by assumption.
     rewrite (be_decode_encode_small 4) by apply crc_range.
     apply after_header_exact. assumption.
   Qed.
 
-  (* inversion: what an arbitrary rest must look like for readEntry to emit / panic / skip *)
-  Definition hdr_ok (s : list N) (len : nat) : Prop :=
-    (16 + len <= length s)%nat /\ N.of_nat len <= max_payload /\ N.of_nat len = be_decode (firstn 4 s) /\
-    crc (firstn len (skipn 16 s)) = be_decode (firstn 4 (skipn 12 s)).
-
+  (* every outcome but RStop needs a complete header; a skip or an emit leaves a proper suffix *)
   Lemma read_entry_inv : forall s,
     match read_entry s with
     | RStop => (length s < 16)%nat
+    | RLost => (16 <= length s)%nat
     | RSkip rest => (16 <= length s)%nat /\ exists k, (16 <= k)%nat /\ rest = skipn k s
-    | RPanic => exists len, hdr_ok s len /\ decode_payload (firstn len (skipn 16 s)) = DPanic
-    | REmit x rest => exists len k db d, hdr_ok s len /\
-          decode_payload (firstn len (skipn 16 s)) = DOk k db d /\
-          x = mkR (be_decode (firstn 8 (skipn 4 s))) k db d /\ rest = skipn (16 + len) s
+    | REmit x rest => (16 <= length s)%nat /\ exists k, (16 <= k)%nat /\ rest = skipn k s
     end.
   Proof.
-    intros s. unfold Model.read_entry. rewrite entry_header_size_eq, hdr_n_eq.
+    intros s. unfold Model.read_entry, Model.read_entry_gen. rewrite entry_header_size_eq, hdr_n_eq.
     destruct (len_N s <? 16) eqn:E1.
     { apply N.ltb_lt in E1. unfold len_N in E1. lia. }
     apply N.ltb_ge in E1. unfold len_N in E1.
     assert (H16 : (16 <= length s)%nat) by lia.
-    destruct (max_payload <? be_decode (firstn 4 s)) eqn:E2.
-    { split; [assumption|]. exists 16%nat. split; [lia|reflexivity]. }
-    apply N.ltb_ge in E2.
+    destruct (maxp <? be_decode (firstn 4 s)) eqn:E2; [assumption|].
     destruct (len_N (skipn 16 s) <? be_decode (firstn 4 s)) eqn:E3.
     { split; [assumption|]. exists (length s). split; [lia|]. rewrite skipn_all. reflexivity. }
-    apply N.ltb_ge in E3. unfold len_N in E3. rewrite skipn_length in E3.
     set (len := N.to_nat (be_decode (firstn 4 s))) in *.
-    assert (Hlen : N.of_nat len = be_decode (firstn 4 s)) by (unfold len; lia).
-    assert (Hok : crc (firstn len (skipn 16 s)) = be_decode (firstn 4 (skipn 12 s)) -> hdr_ok s len).
-    { intros Hc. repeat split; try assumption; lia. }
     assert (Hrest : skipn len (skipn 16 s) = skipn (16 + len) s) by (rewrite skipn_skipn'; reflexivity).
-    destruct (crc (firstn len (skipn 16 s)) =? be_decode (firstn 4 (skipn 12 s))) eqn:E4.
-    - apply N.eqb_eq in E4.
-      destruct (decode_payload (firstn len (skipn 16 s))) eqn:E5.
-      + exists len. split; [apply Hok; assumption|assumption].
-      + split; [assumption|]. exists (16 + len)%nat. split; [lia|]. assumption.
-      + exists len, k, db, data. split; [apply Hok; assumption|]. split; [assumption|]. split; [reflexivity|]. exact Hrest.
+    destruct (crc (firstn len (skipn 16 s)) =? be_decode (firstn 4 (skipn 12 s))); [|assumption].
+    destruct (decode_payload (firstn len (skipn 16 s))).
+    - split; [assumption|]. exists (16 + len)%nat. split; [lia|]. assumption.
     - split; [assumption|]. exists (16 + len)%nat. split; [lia|]. assumption.
   Qed.
 
@@ -314,20 +295,21 @@ Section WalProofs.
   (* Part C: the loop, fuel                                                                    *)
   (* -------------------------------------------------------------------------------------- *)
 
-  Definition bump (r : lres) : lres := match r with LOk es c => LOk es (c + 1) | LPanic => LPanic end.
-  Definition push (e : rentry) (r : lres) : lres := match r with LOk es c => LOk (e :: es) c | LPanic => LPanic end.
+  Definition bump (r : lres) : lres := match r with LOk es c => LOk es (c + 1) end.
+  Definition push (e : rentry) (r : lres) : lres := match r with LOk es c => LOk (e :: es) c end.
 
   Lemma read_loop_S : forall f s,
     read_loop (S f) s =
     match read_entry s with
     | RStop => Some (LOk [] 0)
-    | RPanic => Some LPanic
+    | RLost => Some (LOk [] 1)
     | RSkip rest => option_map bump (read_loop f rest)
     | REmit e rest => option_map (push e) (read_loop f rest)
     end.
   Proof.
-    intros. cbn [Model.read_loop]. destruct (read_entry s); try reflexivity;
-      destruct (read_loop f rest) as [[|]|]; reflexivity.
+    intros. unfold Model.read_loop, Model.read_entry. cbn [Model.read_loop_gen].
+    destruct (read_entry_gen crc classify maxp false s); try reflexivity;
+      destruct (read_loop_gen crc classify maxp false f rest) as [[]|]; reflexivity.
   Qed.
 
   Lemma read_loop_mono : forall n s r, read_loop n s = Some r -> read_loop (S n) s = Some r.
@@ -354,7 +336,7 @@ Section WalProofs.
   Lemma reads_stop : forall s, read_entry s = RStop -> reads s (LOk [] 0).
   Proof. intros s H. exists 1%nat. rewrite read_loop_S, H. reflexivity. Qed.
 
-  Lemma reads_panic : forall s, read_entry s = RPanic -> reads s LPanic.
+  Lemma reads_lost : forall s, read_entry s = RLost -> reads s (LOk [] 1).
   Proof. intros s H. exists 1%nat. rewrite read_loop_S, H. reflexivity. Qed.
 
   Lemma reads_skip : forall s rest r, read_entry s = RSkip rest -> reads rest r -> reads s (bump r).
@@ -363,8 +345,14 @@ Section WalProofs.
   Lemma reads_emit : forall s e rest r, read_entry s = REmit e rest -> reads rest r -> reads s (push e r).
   Proof. intros s e rest r H [n Hn]. exists (S n). rewrite read_loop_S, H, Hn. reflexivity. Qed.
 
+  Lemma read_entry_short : forall s, (length s < 16)%nat -> read_entry s = RStop.
+  Proof.
+    intros s H. unfold Model.read_entry, Model.read_entry_gen. rewrite entry_header_size_eq.
+    replace (len_N s <? 16) with true; [reflexivity|]. symmetry. apply N.ltb_lt. unfold len_N. lia.
+  Qed.
+
   Lemma reads_nil : reads [] (LOk [] 0).
-  Proof. apply reads_stop. reflexivity. Qed.
+  Proof. apply reads_stop. apply read_entry_short. simpl. lia. Qed.
 
   (* every iteration but the last consumes a whole header: the fuel ReadAll is given suffices *)
   Lemma read_loop_enough : forall n s, (length s < 16 * n)%nat -> exists r, read_loop n s = Some r.
@@ -377,43 +365,54 @@ Section WalProofs.
     - destruct Hinv as [H16 [k [Hk Hr]]]. subst rest.
       destruct (IHn (skipn k s)) as [r Hr]. { rewrite skipn_length. lia. }
       rewrite Hr. eexists; reflexivity.
-    - destruct Hinv as [len [k [db [d [[Hl _] [_ [_ Hr]]]]]]]. subst rest.
-      destruct (IHn (skipn (16 + len) s)) as [r Hr]. { rewrite skipn_length. lia. }
+    - destruct Hinv as [H16 [k [Hk Hr]]]. subst rest.
+      destruct (IHn (skipn k s)) as [r Hr]. { rewrite skipn_length. lia. }
       rewrite Hr. eexists; reflexivity.
   Qed.
 
-  Definition fres_of (r : lres) : fres := match r with LPanic => FPanic | LOk es c => FOk es c end.
-
-  Lemma file_header_eq : file_header = wal_magic ++ be_encode 2 wal_version ++ [checksum_type].
-  Proof. reflexivity. Qed.
+  Definition fres_of (r : lres) : fres := match r with LOk es c => FOk es c end.
 
   Lemma file_header_length : length file_header = 7%nat.
   Proof. reflexivity. Qed.
 
-  (* a file that starts with an intact file header *)
+  Lemma list_eqb_neq : forall a b, a <> b -> list_eqb a b = false.
+  Proof. intros a b H. destruct (list_eqb a b) eqn:E; [|reflexivity]. apply list_eqb_eq in E. contradiction. Qed.
+
+  (* a file with a 7-byte header: rejected when the magic is damaged, otherwise the loop runs
+     on the rest *)
+  Lemma read_all_header : forall h body, length h = 7%nat ->
+    (firstn 4 h <> wal_magic -> read_all (h ++ body) = FErr) /\
+    (firstn 4 h = wal_magic -> forall r, reads body r -> read_all (h ++ body) = fres_of r).
+  Proof.
+    intros h body Hh.
+    assert (Hf : firstn 4 (h ++ body) = firstn 4 h).
+    { rewrite firstn_app. replace (4 - length h)%nat with 0%nat by lia. simpl. apply app_nil_r. }
+    assert (Hl : len_N (h ++ body) <? file_header_size = false).
+    { apply N.ltb_ge. unfold len_N. rewrite app_length, Hh. change file_header_size with 7. lia. }
+    split.
+    - intros Hm. unfold Model.read_all, Model.read_all_gen. rewrite Hl, Hf, (list_eqb_neq _ _ Hm). reflexivity.
+    - intros Hm r Hr. unfold Model.read_all, Model.read_all_gen. rewrite Hl, Hf, Hm, list_eqb_refl. cbn [negb].
+      rewrite fhdr_n_eq, (skipn_app_len h body 7 Hh).
+      destruct (read_loop_enough (S (length (h ++ body))) body) as [r' Hr'].
+      { rewrite app_length. lia. }
+      unfold Model.read_loop in Hr'. rewrite Hr'.
+      assert (r' = r) by (eapply reads_fun; [eexists; eassumption|assumption]). subst.
+      destruct r; reflexivity.
+  Qed.
+
   Lemma read_all_reads : forall body r, reads body r -> read_all (file_header ++ body) = fres_of r.
   Proof.
-    intros body r Hr. unfold Model.read_all.
-    replace (len_N (file_header ++ body) <? file_header_size) with false.
-    2:{ symmetry. apply N.ltb_ge. unfold len_N. rewrite app_length, file_header_length.
-        change file_header_size with 7. lia. }
-    replace (firstn 4 (file_header ++ body)) with wal_magic by reflexivity.
-    rewrite list_eqb_refl. cbn [negb].
-    rewrite fhdr_n_eq. rewrite (skipn_app_len file_header body 7 file_header_length).
-    destruct (read_loop_enough (S (length (file_header ++ body))) body) as [r' Hr'].
-    { rewrite app_length. lia. }
-    rewrite Hr'. assert (r' = r) by (eapply reads_fun; [eexists; eassumption|assumption]). subst.
-    destruct r; reflexivity.
+    intros body r Hr. destruct (read_all_header file_header body file_header_length) as [_ H]. apply H; auto.
   Qed.
 
   Lemma read_all_never_out_of_fuel : forall f, read_all f <> FOutOfFuel.
   Proof.
-    intros f. unfold Model.read_all.
+    intros f. unfold Model.read_all, Model.read_all_gen.
     destruct (len_N f <? file_header_size); [discriminate|].
     destruct (negb (list_eqb (firstn 4 f) wal_magic)); [discriminate|].
     destruct (read_loop_enough (S (length f)) (skipn fhdr_n f)) as [r Hr].
     { rewrite skipn_length. lia. }
-    rewrite Hr. destruct r; discriminate.
+    unfold Model.read_loop in Hr. rewrite Hr. destruct r; discriminate.
   Qed.
 
   (* -------------------------------------------------------------------------------------- *)
@@ -421,10 +420,7 @@ Section WalProofs.
   (* -------------------------------------------------------------------------------------- *)
 
   Definition prepend (es : list entry) (r : lres) : lres :=
-    match r with
-    | LPanic => LPanic
-    | LOk l c => LOk (emitted es ++ l) (c + undecodable classify es)
-    end.
+    match r with LOk l c => LOk (emitted es ++ l) (c + undecodable classify es) end.
 
   Lemma emitted_cons : forall e es, emitted (e :: es) = (match emit e with Some r => [r] | None => [] end) ++ emitted es.
   Proof. reflexivity. Qed.
@@ -444,44 +440,43 @@ Section WalProofs.
     intros. unfold undecodable. cbn [filter]. destruct (emit e); cbn [length]; lia.
   Qed.
 
-  Lemma reads_frame : forall e rest r, wf_entry e -> decode_payload (e_payload e) <> DPanic ->
+  Lemma reads_frame : forall e rest r, wf_entry e ->
     reads rest r -> reads (frame e ++ rest) (prepend [e] r).
   Proof.
-    intros e rest r Hwf Hnp Hr.
+    intros e rest r Hwf Hr.
     pose proof (read_entry_frame e rest Hwf) as Hstep. unfold step_of in Hstep.
     unfold prepend. rewrite undecodable_cons. unfold Model.emitted. cbn [flat_map]. rewrite app_nil_r.
     unfold Model.emit. unfold undecodable. cbn [filter length].
     destruct (decode_payload (e_payload e)) eqn:E.
-    - contradiction.
-    - replace (match r with LPanic => LPanic | LOk l c => LOk ([] ++ l) (c + (1 + N.of_nat 0)) end) with (bump r)
-        by (destruct r; simpl; [reflexivity|f_equal; lia]).
+    - replace (match r with LOk l c => LOk ([] ++ l) (c + (1 + N.of_nat 0)) end) with (bump r)
+        by (destruct r; simpl; f_equal; lia).
       eapply reads_skip; eassumption.
-    - replace (match r with LPanic => LPanic | LOk l c => LOk ([{| r_ts := e_ts e; r_kind := k; r_db := db; r_data := data |}] ++ l) (c + (0 + N.of_nat 0)) end)
-        with (push (mkR (e_ts e) k db data) r) by (destruct r; simpl; [reflexivity|f_equal; lia]).
+    - replace (match r with LOk l c => LOk ([{| r_ts := e_ts e; r_kind := k; r_db := db; r_data := data |}] ++ l) (c + (0 + N.of_nat 0)) end)
+        with (push (mkR (e_ts e) k db data) r) by (destruct r; simpl; f_equal; lia).
       eapply reads_emit; eassumption.
   Qed.
 
   Lemma prepend_app : forall a b r, prepend (a ++ b) r = prepend a (prepend b r).
   Proof.
-    intros. destruct r; simpl; [reflexivity|]. rewrite emitted_app, <- app_assoc. f_equal.
+    intros. destruct r; simpl. rewrite emitted_app, <- app_assoc. f_equal.
     unfold undecodable. rewrite filter_app, app_length. lia.
   Qed.
 
-  Lemma reads_frames : forall es rest r, Forall wf_entry es -> no_panic es ->
+  Lemma reads_frames : forall es rest r, Forall wf_entry es ->
     reads rest r -> reads (frames es ++ rest) (prepend es r).
   Proof.
-    induction es; intros rest r Hwf Hnp Hr.
-    - replace (prepend [] r) with r; [exact Hr|]. destruct r; [reflexivity|]. unfold prepend, undecodable. simpl. rewrite N.add_0_r. reflexivity.
-    - inversion Hwf; subst. inversion Hnp; subst.
+    induction es; intros rest r Hwf Hr.
+    - replace (prepend [] r) with r; [exact Hr|]. destruct r. unfold prepend, undecodable. simpl. rewrite N.add_0_r. reflexivity.
+    - inversion Hwf; subst.
       rewrite frames_cons, <- app_assoc.
       change (a :: es) with ([a] ++ es). rewrite prepend_app.
       apply reads_frame; auto.
   Qed.
 
-  Theorem intact : forall es, Forall wf_entry es -> no_panic es ->
+  Theorem intact : forall es, Forall wf_entry es ->
     read_all (file es) = FOk (emitted es) (undecodable classify es).
   Proof.
-    intros es Hwf Hnp. unfold Model.file.
+    intros es Hwf. unfold Model.file.
     rewrite (read_all_reads (frames es) (prepend es (LOk [] 0))).
     - simpl. rewrite app_nil_r. reflexivity.
     - rewrite <- (app_nil_r (frames es)). apply reads_frames; auto. apply reads_nil.
@@ -490,12 +485,6 @@ Section WalProofs.
   (* -------------------------------------------------------------------------------------- *)
   (* Part E: truncation at every offset                                                        *)
   (* -------------------------------------------------------------------------------------- *)
-
-  Lemma read_entry_short : forall s, (length s < 16)%nat -> read_entry s = RStop.
-  Proof.
-    intros s H. unfold Model.read_entry. rewrite entry_header_size_eq.
-    replace (len_N s <? 16) with true; [reflexivity|]. symmetry. apply N.ltb_lt. unfold len_N. lia.
-  Qed.
 
   Lemma reads_torn : forall e k, wf_entry e -> (k < length (frame e))%nat ->
     exists c, reads (firstn k (frame e)) (LOk [] c).
@@ -517,9 +506,9 @@ Section WalProofs.
       rewrite Hf. change (LOk [] 1) with (bump (LOk [] 0)).
       eapply reads_skip; [|apply reads_nil].
       rewrite read_entry_parts by apply be_encode_length.
-      rewrite (be_decode_encode_small 4) by (pose proof max_payload_lt; lia).
+      rewrite (be_decode_encode_small 4) by lia.
       unfold after_header.
-      replace (max_payload <? len_N (e_payload e)) with false by (symmetry; apply N.ltb_ge; assumption).
+      replace (maxp <? len_N (e_payload e)) with false by (symmetry; apply N.ltb_ge; assumption).
       replace (len_N (firstn (k - 16) (e_payload e)) <? len_N (e_payload e)) with true; [reflexivity|].
       symmetry. apply N.ltb_lt. unfold len_N. rewrite firstn_length. lia.
   Qed.
@@ -557,12 +546,12 @@ Section WalProofs.
   Lemma frames_nonempty : forall e, (16 <= length (frame e))%nat.
   Proof. intros. rewrite frame_length. lia. Qed.
 
-  Theorem truncation : forall es k, Forall wf_entry es -> no_panic es ->
+  Theorem truncation : forall es k, Forall wf_entry es ->
     exists c, read_all (truncate k (file es)) = FOk (emitted (prefix_within crc (k - 7) es)) c.
   Proof.
-    intros es k Hwf Hnp. unfold truncate, Model.file.
+    intros es k Hwf. unfold truncate, Model.file.
     destruct (Nat.lt_ge_cases k 7) as [Hlt|Hge].
-    - exists 0. unfold Model.read_all.
+    - exists 0. unfold Model.read_all, Model.read_all_gen.
       replace (len_N (firstn k (file_header ++ frames es)) <? file_header_size) with true.
       2:{ symmetry. apply N.ltb_lt. unfold len_N. rewrite firstn_length. change file_header_size with 7. lia. }
       replace (k - 7)%nat with 0%nat by lia.
@@ -574,139 +563,8 @@ Section WalProofs.
       destruct (prefix_within_spec es (k - 7)) as [rest [H3 _]].
       assert (Hwf' : Forall wf_entry (prefix_within crc (k - 7) es)).
       { rewrite H3 in Hwf. apply Forall_app in Hwf. tauto. }
-      assert (Hnp' : no_panic (prefix_within crc (k - 7) es)).
-      { unfold no_panic in *. rewrite H3 in Hnp. apply Forall_app in Hnp. tauto. }
-      eexists. rewrite (read_all_reads _ _ (reads_frames _ _ _ Hwf' Hnp' H2)).
+      eexists. rewrite (read_all_reads _ _ (reads_frames _ _ _ Hwf' H2)).
       simpl. rewrite app_nil_r. reflexivity.
-  Qed.
-
-  (* -------------------------------------------------------------------------------------- *)
-  (* Part F: reading from an arbitrary offset of a ghost-free frame area                       *)
-  (* -------------------------------------------------------------------------------------- *)
-
-  (* a byte range that readEntry would accept if it started at offset p and took len for the
-     length; a ghost is such a range that is not one of the appended frames *)
-  Definition valid_at (body : list N) (p len : nat) : Prop :=
-    (p + 16 + len <= length body)%nat /\ N.of_nat len <= max_payload /\
-    crc (firstn len (skipn (p + 16) body)) = be_decode (firstn 4 (skipn (p + 12) body)) /\
-    decode_payload (firstn len (skipn (p + 16) body)) <> DBad.
-
-  Definition genuine (es : list entry) (p len : nat) : Prop :=
-    exists pre e post, es = pre ++ e :: post /\ p = length (frames pre) /\ len = length (e_payload e).
-
-  Definition ghost_free (es : list entry) : Prop :=
-    forall p len, valid_at (frames es) p len -> genuine es p len.
-
-  Lemma drop_until_suffix : forall es q, exists pre, es = pre ++ drop_until crc q es.
-  Proof.
-    induction es; intros q; [exists []; reflexivity|].
-    cbn [drop_until]. destruct q; [exists []; reflexivity|].
-    destruct (IHes (S q - length (frame a))%nat) as [pre Hp]. exists (a :: pre). simpl. f_equal. assumption.
-  Qed.
-
-  Lemma drop_until_mono : forall es q k, exists pre, drop_until crc q es = pre ++ drop_until crc (q + k) es.
-  Proof.
-    induction es; intros q k; [exists []; reflexivity|].
-    destruct q.
-    - cbn [drop_until Nat.add]. apply (drop_until_suffix (a :: es) k).
-    - cbn [drop_until Nat.add].
-      destruct (IHes (S q - length (frame a))%nat ((S (q + k) - length (frame a)) - (S q - length (frame a)))%nat) as [pre Hp].
-      exists pre. rewrite Hp. do 2 f_equal. lia.
-  Qed.
-
-  Lemma drop_until_boundary : forall pre l, drop_until crc (length (frames pre)) (pre ++ l) = l.
-  Proof.
-    induction pre; intros l.
-    - cbn. destruct l; reflexivity.
-    - rewrite frames_cons, app_length. cbn [app drop_until].
-      pose proof (frames_nonempty a).
-      destruct (length (frame a) + length (frames pre))%nat eqn:E; [lia|].
-      rewrite <- E. replace (length (frame a) + length (frames pre) - length (frame a))%nat with (length (frames pre)) by lia.
-      apply IHpre.
-  Qed.
-
-  Lemma emitted_suffix_sublist : forall a b, sublist (emitted b) (emitted (a ++ b)).
-  Proof. intros. rewrite emitted_app. apply sublist_app_r. apply sublist_refl. Qed.
-
-  Lemma frames_length_inj : forall pre1 e1 post1 pre2 e2 post2,
-    pre1 ++ e1 :: post1 = pre2 ++ e2 :: post2 -> length (frames pre1) = length (frames pre2) ->
-    pre1 = pre2 /\ e1 = e2 /\ post1 = post2.
-  Proof.
-    induction pre1; intros e1 post1 pre2 e2 post2 Heq Hlen.
-    - destruct pre2.
-      + simpl in Heq. inversion Heq. auto.
-      + rewrite frames_cons, app_length in Hlen. pose proof (frames_nonempty e). simpl in Hlen. lia.
-    - destruct pre2.
-      + rewrite frames_cons, app_length in Hlen. pose proof (frames_nonempty a). simpl in Hlen. lia.
-      + simpl in Heq. inversion Heq; subst. rewrite !frames_cons, !app_length in Hlen.
-        destruct (IHpre1 _ _ _ _ _ H1) as [A [B C]]; [lia|]. subst. auto.
-  Qed.
-
-  Lemma skipn_app_ge : forall (a x : list N) k, (length a <= k)%nat -> skipn k (a ++ x) = skipn (k - length a) x.
-  Proof. intros. rewrite skipn_app. rewrite skipn_all2 by assumption. reflexivity. Qed.
-
-  Lemma frame_payload_slice : forall e rest,
-    firstn (length (e_payload e)) (skipn 16 (frame e ++ rest)) = e_payload e.
-  Proof.
-    intros. unfold Model.frame.
-    replace ((be_encode 4 (len_N (e_payload e)) ++ be_encode 8 (e_ts e) ++ be_encode 4 (crc (e_payload e)) ++ e_payload e) ++ rest)
-      with ((be_encode 4 (len_N (e_payload e)) ++ be_encode 8 (e_ts e) ++ be_encode 4 (crc (e_payload e))) ++ e_payload e ++ rest)
-      by (rewrite <- !app_assoc; reflexivity).
-    rewrite skipn_app_len by (rewrite !app_length, !be_encode_length; reflexivity).
-    apply firstn_app_len. reflexivity.
-  Qed.
-
-  Lemma skipn_body : forall pre x, skipn (length (frames pre)) (frames pre ++ x) = x.
-  Proof. intros. apply skipn_app_len. reflexivity. Qed.
-
-  (* hdr_ok at the rest that starts at offset q is valid_at q *)
-  Lemma hdr_ok_valid_at : forall body q len,
-    hdr_ok (skipn q body) len -> decode_payload (firstn len (skipn 16 (skipn q body))) <> DBad ->
-    valid_at body q len.
-  Proof.
-    intros body q len [H1 [H2 [H3 H4]]] H5. rewrite skipn_length in H1.
-    rewrite !skipn_skipn' in *. repeat split; try assumption. lia.
-  Qed.
-
-  Lemma read_from_offset : forall es, ghost_free es -> Forall wf_entry es -> no_panic es ->
-    forall n q r, read_loop n (skipn q (frames es)) = Some r ->
-    exists res c, r = LOk res c /\ sublist res (emitted (drop_until crc q es)).
-  Proof.
-    intros es Hgf Hwf Hnp. induction n; intros q r H; [discriminate|].
-    rewrite read_loop_S in H.
-    pose proof (read_entry_inv (skipn q (frames es))) as Hinv.
-    destruct (read_entry (skipn q (frames es))) eqn:E.
-    - inversion H; subst. exists [], 0. split; [reflexivity|constructor].
-    - (* panic: the range would be a ghost, or a genuine entry that panics *)
-      exfalso. destruct Hinv as [len [Hok Hd]].
-      assert (Hv : valid_at (frames es) q len) by (apply hdr_ok_valid_at; [assumption|congruence]).
-      destruct (Hgf _ _ Hv) as [pre [e [post [He [Hq Hl]]]]]. subst es q len.
-      rewrite frames_app, frames_cons, skipn_body, frame_payload_slice in Hd.
-      unfold no_panic in Hnp. apply Forall_app in Hnp. destruct Hnp as [_ Hnp]. inversion Hnp; subst. contradiction.
-    - destruct Hinv as [_ [k [Hk Hrest]]]. subst rest. rewrite skipn_skipn' in H.
-      destruct (read_loop n (skipn (q + k) (frames es))) eqn:E2; [|discriminate].
-      destruct (IHn _ _ E2) as [res [c [Hr Hs]]]. subst l. inversion H; subst.
-      exists res, (c + 1). split; [reflexivity|].
-      destruct (drop_until_mono es q k) as [pre Hp]. rewrite Hp.
-      eapply sublist_trans; [eassumption|apply emitted_suffix_sublist].
-    - destruct Hinv as [len [k [db [d [Hok [Hd _]]]]]].
-      assert (Hv : valid_at (frames es) q len) by (apply hdr_ok_valid_at; [assumption|congruence]).
-      clear Hd Hok k db d.
-      destruct (Hgf _ _ Hv) as [pre [e' [post [He [Hq Hl]]]]]. subst es q len.
-      assert (Hwfe : wf_entry e') by (apply Forall_app in Hwf; destruct Hwf as [_ Hwf]; inversion Hwf; assumption).
-      rewrite frames_app, frames_cons, skipn_body in E.
-      rewrite (read_entry_frame e' (frames post) Hwfe) in E. unfold step_of in E.
-      destruct (decode_payload (e_payload e')) eqn:Ed; try discriminate. inversion E; subst e rest. clear E.
-      destruct (read_loop n (frames post)) eqn:E2; [|discriminate].
-      assert (Hpost : frames post = skipn (length (frames (pre ++ [e']))) (frames ((pre ++ [e']) ++ post))).
-      { rewrite (frames_app (pre ++ [e']) post). symmetry. apply skipn_app_len. reflexivity. }
-      rewrite Hpost in E2. rewrite <- app_assoc in E2. cbn [app] in E2.
-      destruct (IHn _ _ E2) as [res [c [Hr Hs]]]. subst l. inversion H; subst.
-      exists ({| r_ts := e_ts e'; r_kind := k; r_db := db; r_data := data |} :: res), c. split; [reflexivity|].
-      rewrite drop_until_boundary.
-      replace (pre ++ e' :: post) with ((pre ++ [e']) ++ post) in Hs by (rewrite <- app_assoc; reflexivity).
-      rewrite drop_until_boundary in Hs.
-      rewrite emitted_cons. unfold Model.emit. rewrite Ed. cbn [app]. constructor. assumption.
   Qed.
 
   (* -------------------------------------------------------------------------------------- *)
@@ -751,7 +609,7 @@ Section WalProofs.
 
   Lemma wf_len_decode : forall e, wf_entry e -> be_decode (fL e) = len_N (e_payload e).
   Proof.
-    intros e [_ [Hmax _]]. unfold fL. apply be_decode_encode_small. pose proof max_payload_lt. lia.
+    intros e [_ [Hmax _]]. unfold fL. apply be_decode_encode_small. lia.
   Qed.
 
   (* the reader's step on a frame whose timestamp bytes were replaced *)
@@ -763,38 +621,26 @@ Section WalProofs.
     destruct Hwf as [_ [Hmax _]]. apply after_header_exact. assumption.
   Qed.
 
-  Lemma step_crc : forall e C' ts rest, wf_entry e -> length C' = 4%nat -> be_decode C' <> crc (e_payload e) ->
-    after_header (len_N (e_payload e)) ts (be_decode C') (e_payload e ++ rest) = RSkip rest.
+  (* a frame whose stored checksum / payload no longer match: framing lost *)
+  Lemma step_mismatch : forall e P' ts sum rest, wf_entry e -> length P' = length (e_payload e) ->
+    crc P' <> sum ->
+    after_header (len_N (e_payload e)) ts sum (P' ++ rest) = RLost.
   Proof.
-    intros e C' ts rest [_ [Hmax _]] HC Hne. unfold after_header.
-    replace (max_payload <? len_N (e_payload e)) with false by (symmetry; apply N.ltb_ge; assumption).
-    replace (len_N (e_payload e ++ rest) <? len_N (e_payload e)) with false
-      by (symmetry; apply N.ltb_ge; unfold len_N; rewrite app_length; lia).
-    unfold len_N. rewrite Nat2N.id.
-    rewrite (firstn_app_len _ rest _ eq_refl), (skipn_app_len _ rest _ eq_refl).
-    replace (crc (e_payload e) =? be_decode C') with false; [reflexivity|].
-    symmetry. apply N.eqb_neq. congruence.
-  Qed.
-
-  Lemma step_payload : forall e P' ts rest, wf_entry e -> length P' = length (e_payload e) ->
-    crc P' <> crc (e_payload e) ->
-    after_header (len_N (e_payload e)) ts (crc (e_payload e)) (P' ++ rest) = RSkip rest.
-  Proof.
-    intros e P' ts rest [_ [Hmax _]] HP Hne. unfold after_header.
-    replace (max_payload <? len_N (e_payload e)) with false by (symmetry; apply N.ltb_ge; assumption).
+    intros e P' ts sum rest [_ [Hmax _]] HP Hne. unfold after_header.
+    replace (maxp <? len_N (e_payload e)) with false by (symmetry; apply N.ltb_ge; assumption).
     replace (len_N (P' ++ rest) <? len_N (e_payload e)) with false
       by (symmetry; apply N.ltb_ge; unfold len_N; rewrite app_length; lia).
     unfold len_N. rewrite Nat2N.id. rewrite <- HP.
     rewrite (firstn_app_len _ rest _ eq_refl), (skipn_app_len _ rest _ eq_refl).
-    replace (crc P' =? crc (e_payload e)) with false; [reflexivity|].
+    replace (crc P' =? sum) with false; [reflexivity|].
     symmetry. apply N.eqb_neq. assumption.
   Qed.
 
   (* the rest of the file after the damaged frame is read normally *)
-  Lemma reads_post : forall post, Forall wf_entry post -> no_panic post ->
+  Lemma reads_post : forall post, Forall wf_entry post ->
     reads (frames post) (LOk (emitted post) (undecodable classify post)).
   Proof.
-    intros post Hwf Hnp. rewrite <- (app_nil_r (frames post)).
+    intros post Hwf. rewrite <- (app_nil_r (frames post)).
     replace (LOk (emitted post) (undecodable classify post)) with (prepend post (LOk [] 0))
       by (simpl; rewrite app_nil_r; reflexivity).
     apply reads_frames; auto. apply reads_nil.
@@ -807,25 +653,30 @@ Section WalProofs.
     emitted (pre ++ e :: post) = emitted pre ++ (match emit e with Some r => [r] | None => [] end) ++ emitted post.
   Proof. intros. rewrite emitted_app, emitted_cons. reflexivity. Qed.
 
-  (* damage outside the length field: the damaged frame is dropped, or (timestamp bytes) comes
-     back with its payload intact; everything else is read as if nothing had happened *)
+  Lemma payloads_ok_prefix : forall pre e post, payloads_ok (emitted pre) (pre ++ e :: post).
+  Proof.
+    intros. unfold payloads_ok. rewrite emitted_app, map_app.
+    rewrite <- (app_nil_r (map strip (emitted pre))) at 1.
+    apply sublist_app; [apply sublist_refl|constructor].
+  Qed.
+
+  (* damage outside the length field: the reader stops at the damaged frame (checksum or payload
+     bytes), or (timestamp bytes) returns it with its payload intact and reads on *)
   Lemma substituted_non_length : forall pre e post k b,
-    Forall wf_entry (pre ++ e :: post) -> no_panic (pre ++ e :: post) -> b < 256 ->
+    Forall wf_entry (pre ++ e :: post) -> b < 256 ->
     (4 <= k < length (frame e))%nat -> nth k (frame e) 0 <> b ->
     exists res c, reads (frames pre ++ set_byte k b (frame e) ++ frames post) (LOk res c) /\
                   payloads_ok res (pre ++ e :: post).
   Proof.
-    intros pre e post k b Hwf Hnp Hb Hk Hne.
+    intros pre e post k b Hwf Hb Hk Hne.
     apply Forall_app in Hwf. destruct Hwf as [Hwf1 Hwf2]. inversion Hwf2 as [|? ? Hwfe Hwf3]; subst.
-    unfold no_panic in Hnp. apply Forall_app in Hnp. destruct Hnp as [Hnp1 Hnp2]. inversion Hnp2 as [|? ? Hnpe Hnp3]; subst.
-    pose proof (reads_post post Hwf3 Hnp3) as Hpost.
+    pose proof (reads_post post Hwf3) as Hpost.
     assert (HLl : length (fL e) = 4%nat) by apply be_encode_length.
     assert (HTl : length (fT e) = 8%nat) by apply be_encode_length.
     assert (HCl : length (fC e) = 4%nat) by apply be_encode_length.
     rewrite frame_length in Hk. rewrite frame_parts in Hne |- *.
-    (* the step on the damaged frame *)
     assert (Hstep : exists st, read_entry (set_byte k b (fL e ++ fT e ++ fC e ++ e_payload e) ++ frames post) = st /\
-              (st = RSkip (frames post) \/
+              (st = RLost \/ st = RSkip (frames post) \/
                exists ts' kd db d, decode_payload (e_payload e) = DOk kd db d /\ st = REmit (mkR ts' kd db d) (frames post))).
     { destruct (Nat.lt_ge_cases k 12) as [H12|H12].
       - (* timestamp *)
@@ -833,8 +684,8 @@ Section WalProofs.
         rewrite set_byte_app_r. rewrite set_byte_app_l by lia. rewrite <- !app_assoc.
         rewrite step_ts by (try assumption; rewrite set_byte_length; assumption).
         eexists; split; [reflexivity|]. unfold step_of.
-        destruct (decode_payload (e_payload e)) eqn:Ed; [contradiction|left; reflexivity|].
-        right. do 4 eexists. split; reflexivity.
+        destruct (decode_payload (e_payload e)) eqn:Ed; [right; left; reflexivity|].
+        right; right. do 4 eexists. split; reflexivity.
       - destruct (Nat.lt_ge_cases k 16) as [H16|H16].
         + (* checksum *)
           replace k with (length (fL e) + (length (fT e) + (k - 12)))%nat in Hne |- * by lia.
@@ -842,28 +693,32 @@ Section WalProofs.
           rewrite nth_app_r, nth_app_r, nth_app_l in Hne by lia.
           rewrite <- !app_assoc.
           rewrite read_entry_parts by (try assumption; rewrite set_byte_length; assumption).
-          rewrite (wf_len_decode e Hwfe). unfold fT. rewrite (be_decode_encode_small 8) by (destruct Hwfe; assumption).
+          rewrite (wf_len_decode e Hwfe).
           eexists; split; [|left; reflexivity].
-          apply step_crc; [assumption|rewrite set_byte_length; assumption|].
+          apply step_mismatch; [assumption|reflexivity|].
           intros Heq. apply (set_byte_neq (fC e) (k - 12) b); [lia|assumption|].
           apply be_decode_inj.
           * apply set_byte_length.
           * apply set_byte_bytes; [apply be_encode_bytes|assumption].
           * apply be_encode_bytes.
-          * rewrite Heq. unfold fC. symmetry. apply be_decode_encode_small. apply crc_range.
+          * rewrite <- Heq. unfold fC. symmetry. apply be_decode_encode_small. apply crc_range.
         + (* payload *)
           replace k with (length (fL e) + (length (fT e) + (length (fC e) + (k - 16))))%nat in Hne |- * by lia.
           rewrite !set_byte_app_r. rewrite !nth_app_r in Hne.
           rewrite <- !app_assoc.
           rewrite read_entry_parts by assumption.
-          rewrite (wf_len_decode e Hwfe). unfold fT, fC.
-          rewrite (be_decode_encode_small 8) by (destruct Hwfe; assumption).
+          rewrite (wf_len_decode e Hwfe). unfold fC.
           rewrite (be_decode_encode_small 4) by apply crc_range.
           eexists; split; [|left; reflexivity].
-          apply step_payload; [assumption|apply set_byte_length|].
+          apply step_mismatch; [assumption|apply set_byte_length|].
           apply crc_detects_1byte; [destruct Hwfe as [_ [_ Hbytes]]; exact Hbytes|assumption|lia|assumption]. }
     destruct Hstep as [st [Hst Hcase]].
-    destruct Hcase as [Hskip|[ts' [kd [db [d [Hd Hemit]]]]]]; subst st.
+    destruct Hcase as [Hlost|[Hskip|[ts' [kd [db [d [Hd Hemit]]]]]]]; subst st.
+    - exists (emitted pre), (1 + undecodable classify pre). split.
+      + replace (LOk (emitted pre) (1 + undecodable classify pre)) with (prepend pre (LOk [] 1))
+          by (simpl; rewrite app_nil_r; reflexivity).
+        apply reads_frames; auto. apply reads_lost. assumption.
+      + apply payloads_ok_prefix.
     - exists (emitted pre ++ emitted post), (undecodable classify post + 1 + undecodable classify pre). split.
       + replace (LOk (emitted pre ++ emitted post) (undecodable classify post + 1 + undecodable classify pre))
           with (prepend pre (bump (LOk (emitted post) (undecodable classify post)))) by reflexivity.
@@ -878,108 +733,70 @@ Section WalProofs.
         apply sublist_refl.
   Qed.
 
-  Lemma skipn_agree : forall (L1 L2 X : list N) k, length L1 = length L2 -> (length L1 <= k)%nat ->
-    skipn k (L1 ++ X) = skipn k (L2 ++ X).
-  Proof. intros. rewrite !skipn_app_ge by lia. rewrite H. reflexivity. Qed.
+  (* The length field is the only thing that delimits a payload and no checksum covers it.  When
+     a length byte is damaged the reader takes a byte range of another length, starting at the
+     same place, for the payload; it is stopped by the size cap, by the end of the file, or by
+     the CRC test of that range against the stored checksum.  The last test is all that stands
+     between a damaged length and a wrong payload, so it is what the theorem has to ask for:
+     no range of another length that starts where an appended payload starts has that payload's
+     checksum. *)
+  Definition length_alias_free (es : list entry) : Prop :=
+    forall pre e post len', es = pre ++ e :: post ->
+      len' <> length (e_payload e) -> (len' <= length (e_payload e ++ frames post))%nat -> N.of_nat len' <= maxp ->
+      crc (firstn len' (e_payload e ++ frames post)) <> crc (e_payload e).
 
-  (* damage inside a length field: harmless when the frame area contains no ghost *)
   Lemma substituted_length : forall pre e post k b,
-    Forall wf_entry (pre ++ e :: post) -> no_panic (pre ++ e :: post) -> ghost_free (pre ++ e :: post) ->
+    Forall wf_entry (pre ++ e :: post) -> length_alias_free (pre ++ e :: post) ->
     b < 256 -> (k < 4)%nat -> nth k (frame e) 0 <> b ->
     exists res c, reads (frames pre ++ set_byte k b (frame e) ++ frames post) (LOk res c) /\
                   payloads_ok res (pre ++ e :: post).
   Proof.
-    intros pre e post k b Hwf Hnp Hgf Hb Hk Hne.
-    pose proof Hwf as Hwf0. pose proof Hnp as Hnp0.
+    intros pre e post k b Hwf Hfree Hb Hk Hne.
     apply Forall_app in Hwf. destruct Hwf as [Hwf1 Hwf2]. inversion Hwf2 as [|? ? Hwfe Hwf3]; subst.
-    unfold no_panic in Hnp. apply Forall_app in Hnp. destruct Hnp as [Hnp1 Hnp2].
     assert (HLl : length (fL e) = 4%nat) by apply be_encode_length.
     rewrite frame_parts in Hne |- *. rewrite set_byte_app_l by lia. rewrite nth_app_l in Hne by lia.
     rewrite <- !app_assoc.
     set (L' := set_byte k b (fL e)) in *.
-    set (X := fT e ++ fC e ++ e_payload e ++ frames post) in *.
     assert (HL'l : length L' = 4%nat) by (unfold L'; rewrite set_byte_length; assumption).
     assert (HL'ne : be_decode L' <> len_N (e_payload e)).
     { intros Heq. apply (set_byte_neq (fL e) k b); [lia|assumption|]. fold L'.
       apply be_decode_inj; [lia| |apply be_encode_bytes|].
       - unfold L'. apply set_byte_bytes; [apply be_encode_bytes|assumption].
       - rewrite Heq. symmetry. apply wf_len_decode. assumption. }
-    assert (Hs : frame e ++ frames post = fL e ++ X) by (rewrite frame_parts; unfold X; rewrite <- !app_assoc; reflexivity).
-    assert (Hbody : frames (pre ++ e :: post) = frames pre ++ fL e ++ X)
-      by (rewrite frames_app, frames_cons, Hs; reflexivity).
-    assert (Hagree : forall j, (4 <= j)%nat -> skipn j (L' ++ X) = skipn (length (frames pre) + j) (frames (pre ++ e :: post))).
-    { intros j Hj. rewrite Hbody. rewrite <- skipn_skipn', skipn_body. apply skipn_agree; lia. }
-    destruct (read_loop_enough (S (length (L' ++ X))) (L' ++ X)) as [r Hr]; [lia|].
-    rewrite read_loop_S in Hr.
-    pose proof (read_entry_inv (L' ++ X)) as Hinv.
-    assert (Hghost : forall len, hdr_ok (L' ++ X) len -> decode_payload (firstn len (skipn 16 (L' ++ X))) <> DBad -> False).
-    { intros len [H1 [H2 [H3 H4]]] H5.
-      assert (Hv : valid_at (frames (pre ++ e :: post)) (length (frames pre)) len).
-      { rewrite (Hagree 16%nat) in H4, H5 by lia. rewrite (Hagree 12%nat) in H4 by lia.
-        repeat split; try assumption.
-        rewrite Hbody, !app_length, HLl. rewrite app_length, HL'l in H1. lia. }
-      destruct (Hgf _ _ Hv) as [pre2 [e2 [post2 [He [Hq Hl]]]]].
-      destruct (frames_length_inj _ _ _ _ _ _ He Hq) as [A [B C]]. subst pre2 e2 post2.
-      rewrite (firstn_app_len L' X 4 HL'l) in H3. apply HL'ne. rewrite <- H3, Hl. reflexivity. }
-    assert (Hfin : forall res c, r = LOk res c -> sublist res (emitted (e :: post)) ->
-              exists res0 c0, reads (frames pre ++ L' ++ X) (LOk res0 c0) /\ payloads_ok res0 (pre ++ e :: post)).
-    { intros res c Hrr Hsub. subst r.
-      exists (emitted pre ++ res), (c + undecodable classify pre). split.
-      - change (LOk (emitted pre ++ res) (c + undecodable classify pre)) with (prepend pre (LOk res c)).
-        apply reads_frames; auto.
-        exists (S (length (L' ++ X))). rewrite read_loop_S. exact Hr.
-      - unfold payloads_ok. apply sublist_map. rewrite emitted_app.
-        apply sublist_app; [apply sublist_refl|assumption]. }
-    destruct (read_entry (L' ++ X)) eqn:E.
-    - inversion Hr; subst. apply (Hfin [] 0 eq_refl). constructor.
-    - exfalso. destruct Hinv as [len [Hok Hd]]. apply (Hghost len Hok). congruence.
-    - destruct Hinv as [_ [j [Hj Hrest]]]. subst rest.
-      rewrite Hagree in Hr by lia.
-      destruct (read_loop (length (L' ++ X)) (skipn (length (frames pre) + j) (frames (pre ++ e :: post)))) eqn:E2; [|discriminate].
-      destruct (read_from_offset _ Hgf Hwf0 Hnp0 _ _ _ E2) as [res [c [Hl Hsub]]]. subst l.
-      inversion Hr; subst. apply (Hfin res (c + 1)).
-      + reflexivity.
-      + destruct (drop_until_mono (pre ++ e :: post) (length (frames pre)) j) as [pre' Hp].
-        rewrite drop_until_boundary in Hp. rewrite Hp.
-        eapply sublist_trans; [eassumption|apply emitted_suffix_sublist].
-    - exfalso. destruct Hinv as [len [kd [db [d [Hok [Hd _]]]]]]. apply (Hghost len Hok). congruence.
-  Qed.
-
-  Lemma list_eqb_neq : forall a b, a <> b -> list_eqb a b = false.
-  Proof. intros a b H. destruct (list_eqb a b) eqn:E; [|reflexivity]. apply list_eqb_eq in E. contradiction. Qed.
-
-  Lemma read_all_header : forall h body, length h = 7%nat ->
-    (firstn 4 h <> wal_magic -> read_all (h ++ body) = FErr) /\
-    (firstn 4 h = wal_magic -> forall r, reads body r -> read_all (h ++ body) = fres_of r).
-  Proof.
-    intros h body Hh.
-    assert (Hf : firstn 4 (h ++ body) = firstn 4 h).
-    { rewrite firstn_app. replace (4 - length h)%nat with 0%nat by lia. simpl. apply app_nil_r. }
-    assert (Hl : len_N (h ++ body) <? file_header_size = false).
-    { apply N.ltb_ge. unfold len_N. rewrite app_length, Hh. change file_header_size with 7. lia. }
-    split.
-    - intros Hm. unfold Model.read_all. rewrite Hl, Hf, (list_eqb_neq _ _ Hm). reflexivity.
-    - intros Hm r Hr. unfold Model.read_all. rewrite Hl, Hf, Hm, list_eqb_refl. cbn [negb].
-      rewrite fhdr_n_eq, (skipn_app_len h body 7 Hh).
-      destruct (read_loop_enough (S (length (h ++ body))) body) as [r' Hr'].
-      { rewrite app_length. lia. }
-      rewrite Hr'. assert (r' = r) by (eapply reads_fun; [eexists; eassumption|assumption]). subst.
-      destruct r; reflexivity.
+    exists (emitted pre), (1 + undecodable classify pre). split; [|apply payloads_ok_prefix].
+    replace (LOk (emitted pre) (1 + undecodable classify pre)) with (prepend pre (LOk [] 1))
+      by (simpl; rewrite app_nil_r; reflexivity).
+    apply reads_frames; auto.
+    assert (Hstep : read_entry (L' ++ fT e ++ fC e ++ e_payload e ++ frames post) = RLost \/
+                    read_entry (L' ++ fT e ++ fC e ++ e_payload e ++ frames post) = RSkip []).
+    { rewrite read_entry_parts by (try apply be_encode_length; assumption).
+      unfold after_header.
+      destruct (maxp <? be_decode L') eqn:E1; [left; reflexivity|]. apply N.ltb_ge in E1.
+      destruct (len_N (e_payload e ++ frames post) <? be_decode L') eqn:E2; [right; reflexivity|]. apply N.ltb_ge in E2.
+      left. unfold fC. rewrite (be_decode_encode_small 4) by apply crc_range.
+      replace (crc (firstn (N.to_nat (be_decode L')) (e_payload e ++ frames post)) =? crc (e_payload e)) with false; [reflexivity|].
+      symmetry. apply N.eqb_neq. apply (Hfree pre e post); [reflexivity| | |].
+      - unfold len_N in HL'ne. lia.
+      - unfold len_N in E2. lia.
+      - lia. }
+    destruct Hstep as [H|H].
+    - apply reads_lost. assumption.
+    - change (LOk [] 1) with (bump (LOk [] 0)). eapply reads_skip; [eassumption|apply reads_nil].
   Qed.
 
   Lemma payloads_ok_refl : forall es, payloads_ok (emitted es) es.
   Proof. intros. apply sublist_refl. Qed.
 
-  Theorem corruption_guarded : forall es i b,
-    Forall wf_entry es -> no_panic es -> b < 256 -> (i < length (file es))%nat ->
-    (in_len_field crc i es = true -> ghost_free es) ->
+  Theorem corruption : forall es i b,
+    Forall wf_entry es -> b < 256 -> (i < length (file es))%nat ->
+    (in_len_field crc i es = true -> length_alias_free es) ->
     match read_all (set_byte i b (file es)) with
     | FOk res _ => payloads_ok res es
     | FErr => True
-    | FPanic | FOutOfFuel => False
+    | FOutOfFuel => False
     end.
   Proof.
-    intros es i b Hwf Hnp Hb Hi Hguard.
+    intros es i b Hwf Hb Hi Hguard.
     destruct (N.eq_dec (nth i (file es) 0) b) as [Hsame|Hne].
     { rewrite set_byte_same by assumption. rewrite intact by assumption. apply payloads_ok_refl. }
     unfold Model.file in *. rewrite app_length, file_header_length in Hi.
@@ -989,7 +806,7 @@ Section WalProofs.
       destruct (read_all_header (set_byte i b file_header) (frames es)) as [Hbad Hgood].
       { rewrite set_byte_length. apply file_header_length. }
       destruct (list_eq_dec N.eq_dec (firstn 4 (set_byte i b file_header)) wal_magic) as [Hm|Hm].
-      + rewrite (Hgood Hm _ (reads_post es Hwf Hnp)). apply payloads_ok_refl.
+      + rewrite (Hgood Hm _ (reads_post es Hwf)). apply payloads_ok_refl.
       + rewrite (Hbad Hm). exact I.
     - (* frame area *)
       replace i with (length file_header + (i - 7))%nat in Hne |- * by (rewrite file_header_length; lia).
@@ -1009,14 +826,12 @@ Section WalProofs.
         - apply substituted_length; try assumption. apply Hguard. rewrite Hfield. apply Nat.ltb_lt. assumption.
         - apply substituted_non_length; try assumption. lia. }
       destruct Hres as [res [c [Hreads Hok]]].
-      destruct (read_all_header file_header (frames pre ++ set_byte k b (frame e) ++ frames post) file_header_length) as [_ Hgood].
-      rewrite (Hgood eq_refl _ Hreads). exact Hok.
+      rewrite (read_all_reads _ _ Hreads). exact Hok.
   Qed.
-
 End WalProofs.
 
 (* ---------------------------------------------------------------------------------------- *)
-(* Part H: envelopes, append operations                                                       *)
+(* Part H: envelopes, append operations, rotation                                             *)
 (* ---------------------------------------------------------------------------------------- *)
 
 Lemma be_encode_2 : forall v, be_encode 2 v = [(v / 256) mod 256; v mod 256].
@@ -1036,9 +851,7 @@ Proof.
   replace (3 <? len_N whole) with true by (symmetry; apply N.ltb_lt; lia).
   rewrite N.eqb_refl. cbn [andb].
   replace ((len_N db / 256) mod 256 * 256 + len_N db mod 256) with (len_N db) by lia.
-  replace ((3 + len_N db) mod 65536) with (3 + len_N db) by lia.
   replace (3 + len_N db <=? len_N whole) with true by (symmetry; apply N.leb_le; lia).
-  replace (3 + len_N db <? 3) with false by (symmetry; apply N.ltb_ge; lia).
   unfold whole. cbn [skipn]. f_equal.
   - unfold len_N. rewrite Nat2N.id. apply firstn_app_len. reflexivity.
   - replace (N.to_nat (3 + len_N db)) with (3 + length db)%nat by (unfold len_N; lia).
@@ -1056,6 +869,8 @@ Qed.
 Section WalOps.
   Variable crc : list N -> N.
   Variable classify : list N -> cls.
+  Variable maxp : N.
+  Hypothesis maxp_lt : maxp < 256 ^ N.of_nat 4.
   Hypothesis crc_range : forall p, crc p < 256 ^ N.of_nat 4.
 
   (* what reading back must give for an append operation: payload bytes and database *)
@@ -1071,40 +886,72 @@ Section WalOps.
         end
     end.
 
-  (* AppendRaw of a msgpack document (never starts with the marker byte); AppendRawWithMeta with a
-     database name the writer's 258-byte envelope buffer can hold *)
-  Definition wf_op (o : op) : Prop :=
+  (* an Append* CALL: AppendRaw of a msgpack document (never starts with the marker byte) or
+     AppendRawWithMeta; bytes are bytes, the clock is a uint64.  NO assumption on sizes or on
+     the length of the database name: the writer decides (append_outcome). *)
+  Definition wf_call (o : op) : Prop :=
     match o with
-    | OpRaw ts p => ts < 256 ^ N.of_nat 8 /\ len_N p <= max_payload /\ bytes p /\ hd 0 p <> envelope_marker
-    | OpMeta ts db p => ts < 256 ^ N.of_nat 8 /\ len_N (envelope db p) <= max_payload /\ bytes db /\ bytes p /\
-                        len_N db <= 255 /\ (db <> [] \/ p <> [])
+    | OpRaw ts p => ts < 256 ^ N.of_nat 8 /\ bytes p /\ hd 0 p <> envelope_marker
+    | OpMeta ts db p => ts < 256 ^ N.of_nat 8 /\ bytes db /\ bytes p /\ (db <> [] \/ p <> [])
     end.
 
-  Lemma wf_op_entry : forall o, wf_op o ->
-    wf_entry (op_entry o) /\ decode_payload classify (e_payload (op_entry o)) <> DPanic /\
+  Lemma accepted_outcome : forall ops o, In o (accepted maxp ops) -> append_outcome maxp o = AOk.
+  Proof.
+    intros ops o H. unfold accepted in H. apply filter_In in H. destruct H as [_ H].
+    destruct (append_outcome maxp o); [reflexivity|discriminate|discriminate].
+  Qed.
+
+  (* whatever the writer accepts fits the cap ON DISK (envelope included) *)
+  Lemma outcome_ok_fits : forall o, append_outcome maxp o = AOk ->
+    len_N (e_payload (op_entry o)) <= maxp /\ match o with OpMeta _ db _ => len_N db <= 255 | _ => True end.
+  Proof.
+    intros o H. unfold append_outcome in H.
+    destruct (maxp <? len_N (e_payload (op_entry o))) eqn:E; [discriminate|]. apply N.ltb_ge in E.
+    split; [assumption|]. destruct o; [exact I|].
+    destruct (255 <? len_N db) eqn:E2; [discriminate|]. apply N.ltb_ge in E2. assumption.
+  Qed.
+
+  Lemma accepted_call_entry : forall o, wf_call o -> append_outcome maxp o = AOk ->
+    wf_entry maxp (op_entry o) /\
     (match emit classify (op_entry o) with Some r => [r] | None => [] end) = op_spec o.
   Proof.
-    intros [ts p|ts db p]; cbn [wf_op op_entry e_payload e_ts].
-    - intros [Hts [Hmax [Hb Hhd]]]. unfold emit, decode_payload. cbn [e_payload e_ts].
+    intros o Hc Ho. destruct (outcome_ok_fits o Ho) as [Hfit Hdb].
+    destruct o as [ts p|ts db p]; cbn [wf_call op_entry e_payload e_ts] in *.
+    - destruct Hc as [Hts [Hb Hhd]]. unfold emit, decode_payload. cbn [e_payload e_ts].
       rewrite (parse_envelope_raw p Hhd). unfold wf_entry. cbn [e_payload e_ts op_spec].
-      repeat split; try assumption; destruct (classify p); try discriminate; reflexivity.
-    - intros [Hts [Hmax [Hbd [Hbp [Hdb Hne]]]]]. unfold emit, decode_payload. cbn [e_payload e_ts].
+      repeat split; try assumption; destruct (classify p); reflexivity.
+    - destruct Hc as [Hts [Hbd [Hbp Hne]]]. unfold emit, decode_payload. cbn [e_payload e_ts].
       rewrite (parse_envelope_envelope db p Hdb Hne). unfold wf_entry. cbn [e_payload e_ts op_spec].
-      split; [|split; destruct (classify p); try discriminate; reflexivity].
+      split; [|destruct (classify p); reflexivity].
       repeat split; try assumption. unfold envelope. constructor; [apply envelope_marker_byte|].
       apply Forall_app; split; [apply be_encode_bytes|]. apply Forall_app; split; assumption.
   Qed.
 
-  Theorem intact_ops : forall ops, Forall wf_op ops ->
-    exists c, read_all crc classify (file crc (map op_entry ops)) = FOk (flat_map op_spec ops) c.
+  Lemma accepted_entries_wf : forall ops, Forall wf_call ops ->
+    Forall (wf_entry maxp) (map op_entry (accepted maxp ops)) /\
+    emitted classify (map op_entry (accepted maxp ops)) = flat_map op_spec (accepted maxp ops).
   Proof.
-    intros ops Hwf. eexists. rewrite intact; [f_equal| | |].
-    - induction Hwf as [|o ops Ho Hops IH]; [reflexivity|].
-      cbn [map flat_map]. rewrite emitted_cons, IH.
-      destruct (wf_op_entry o Ho) as [_ [_ He]]. rewrite He. reflexivity.
-    - assumption.
-    - induction Hwf as [|o ops Ho Hops IH]; constructor; [apply wf_op_entry; assumption|assumption].
-    - induction Hwf as [|o ops Ho Hops IH]; constructor; [apply wf_op_entry; assumption|assumption].
+    intros ops Hc.
+    assert (H : forall o, In o (accepted maxp ops) -> wf_call o /\ append_outcome maxp o = AOk).
+    { intros o Hin. split; [|eapply accepted_outcome; eassumption].
+      rewrite Forall_forall in Hc. apply Hc. unfold accepted in Hin. apply filter_In in Hin. tauto. }
+    induction (accepted maxp ops) as [|o l IH]; [split; [constructor|reflexivity]|].
+    destruct (H o (or_introl eq_refl)) as [Hw Ho].
+    destruct (accepted_call_entry o Hw Ho) as [He Hs].
+    destruct IH as [IH1 IH2]. { intros o' Hin. apply H. right. assumption. }
+    split; [constructor; assumption|].
+    cbn [map flat_map]. rewrite emitted_cons, IH2, Hs. reflexivity.
+  Qed.
+
+  (* From the append CALLS to the entries read back, for every sequence of calls of any size:
+     the calls the writer accepts (and only those) come back, each with the payload bytes and
+     the database it was appended with, in order. *)
+  Theorem intact_appends : forall ops, Forall wf_call ops ->
+    exists c, read_all crc classify maxp (file crc (map op_entry (accepted maxp ops))) =
+              FOk (flat_map op_spec (accepted maxp ops)) c.
+  Proof.
+    intros ops Hc. destruct (accepted_entries_wf ops Hc) as [Hwf Hem].
+    eexists. rewrite intact by assumption. rewrite Hem. reflexivity.
   Qed.
 
   (* ---- rotation and recovery ---- *)
@@ -1125,85 +972,39 @@ Section WalOps.
     induction gs; intros H; constructor; cbn [concat] in H; apply Forall_app in H; destruct H; auto.
   Qed.
 
-  Lemma recover_groups : forall gs, Forall (Forall wf_entry) gs -> Forall (no_panic classify) gs ->
-    recover crc classify (map (file crc) gs) = Some (filter delivered (emitted classify (concat gs))).
+  Lemma recover_groups : forall gs, Forall (Forall (wf_entry maxp)) gs ->
+    recover crc classify maxp (map (file crc) gs) = filter delivered (emitted classify (concat gs)).
   Proof.
-    induction gs; intros Hwf Hnp; [reflexivity|].
-    inversion Hwf; subst. inversion Hnp; subst.
+    induction gs; intros Hwf; [reflexivity|].
+    inversion Hwf; subst.
     cbn [map recover concat]. rewrite intact by assumption.
     rewrite IHgs by assumption. rewrite emitted_app, filter_app. reflexivity.
   Qed.
 
   (* whatever size limit makes the writer rotate, replaying all files in rotation order yields
      every decodable appended entry, in append order *)
-  Theorem rotation_recover : forall m es, Forall wf_entry es -> no_panic classify es ->
-    recover crc classify (writer_files crc m es) = Some (filter delivered (emitted classify es)).
+  Theorem rotation_recover : forall m es, Forall (wf_entry maxp) es ->
+    recover crc classify maxp (writer_files crc m es) = filter delivered (emitted classify es).
   Proof.
-    intros m es Hwf Hnp. unfold writer_files.
+    intros m es Hwf. unfold writer_files.
     pose proof (rotate_split_concat m es file_header_size) as Hc.
     rewrite recover_groups.
     - rewrite Hc. reflexivity.
     - apply Forall_concat_groups. rewrite Hc. assumption.
-    - apply Forall_concat_groups. rewrite Hc. assumption.
-  Qed.
-
-  (* ---- ghost certificates ---- *)
-
-  Lemma valid_at_b_sound : forall body p len,
-    valid_at_b crc classify body p len = true -> valid_at crc classify body p len.
-  Proof.
-    intros body p len H. unfold valid_at_b in H.
-    apply andb_true_iff in H. destruct H as [H H4].
-    apply andb_true_iff in H. destruct H as [H H3].
-    apply andb_true_iff in H. destruct H as [H1 H2].
-    apply Nat.leb_le in H1. apply N.leb_le in H2. apply N.eqb_eq in H3.
-    repeat split; try assumption.
-    intros Hd. rewrite Hd in H4. discriminate.
-  Qed.
-
-  Lemma genuine_b_complete : forall es p len, genuine crc es p len -> genuine_b crc es p len = true.
-  Proof.
-    intros es p len [pre [e [post [He [Hp Hl]]]]]. subst es p len.
-    induction pre.
-    - cbn. apply Nat.eqb_refl.
-    - rewrite frames_cons, app_length. cbn [app genuine_b].
-      pose proof (frames_nonempty crc a).
-      destruct (length (frame crc a) + length (frames crc pre))%nat eqn:E; [lia|]. rewrite <- E.
-      replace (length (frame crc a) + length (frames crc pre) <? length (frame crc a))%nat with false
-        by (symmetry; apply Nat.ltb_ge; lia).
-      replace (length (frame crc a) + length (frames crc pre) - length (frame crc a))%nat with (length (frames crc pre)) by lia.
-      assumption.
-  Qed.
-
-  Theorem ghost_cert_sound : forall es p len,
-    ghost_cert crc classify es p len = true -> ~ ghost_free crc classify es.
-  Proof.
-    intros es p len H Hgf. unfold ghost_cert in H. apply andb_true_iff in H. destruct H as [Hv Hg].
-    apply valid_at_b_sound in Hv. apply Hgf in Hv. apply genuine_b_complete in Hv.
-    rewrite Hv in Hg. discriminate.
   Qed.
 End WalOps.
 
 (* ---- boolean well-formedness, for closed examples ---- *)
 
-Definition wf_entryb (e : entry) : bool :=
-  (e_ts e <? 256 ^ N.of_nat 8) && (len_N (e_payload e) <=? max_payload) && forallb (fun x => x <? 256) (e_payload e).
+Definition wf_entryb (maxp : N) (e : entry) : bool :=
+  (e_ts e <? 256 ^ N.of_nat 8) && (len_N (e_payload e) <=? maxp) && forallb (fun x => x <? 256) (e_payload e).
 
-Lemma wf_entryb_sound : forall es, forallb wf_entryb es = true -> Forall wf_entry es.
+Lemma wf_entryb_sound : forall maxp es, forallb (wf_entryb maxp) es = true -> Forall (wf_entry maxp) es.
 Proof.
-  intros es H. apply Forall_forall. intros e He. rewrite forallb_forall in H. specialize (H e He).
+  intros maxp es H. apply Forall_forall. intros e He. rewrite forallb_forall in H. specialize (H e He).
   unfold wf_entryb in H. apply andb_true_iff in H. destruct H as [H H3]. apply andb_true_iff in H. destruct H as [H1 H2].
   apply N.ltb_lt in H1. apply N.leb_le in H2. repeat split; try assumption.
   apply Forall_forall. intros x Hx. rewrite forallb_forall in H3. apply N.ltb_lt. auto.
-Qed.
-
-Definition no_panicb (classify : list N -> cls) (es : list entry) : bool :=
-  forallb (fun e => match decode_payload classify (e_payload e) with DPanic => false | _ => true end) es.
-
-Lemma no_panicb_sound : forall classify es, no_panicb classify es = true -> no_panic classify es.
-Proof.
-  intros classify es H. apply Forall_forall. intros e He. unfold no_panicb in H. rewrite forallb_forall in H.
-  specialize (H e He). intros Hd. rewrite Hd in H. discriminate.
 Qed.
 
 Lemma sublist_incl : forall A (a l : list A), sublist a l -> incl a l.
@@ -1247,12 +1048,12 @@ Proof.
 Qed.
 
 (* ---------------------------------------------------------------------------------------- *)
-(* Part J: the refutation witness and the closed examples                                      *)
+(* Part J: closed examples                                                                     *)
 (* ---------------------------------------------------------------------------------------- *)
 
 (* a columnar write into database "mydb" whose string value ends with a complete frame that
    carries a row-format record for database "other" (payload offset 32), between two ordinary
-   entries *)
+   entries: the witness against the reader as it was BEFORE commit 591fc4b *)
 Definition wit_evil : list N :=
   unhex "9183a95f6461746162617365a56f74686572ac5f6d6561737572656d656e74a3637075a176cd029a"%bs.
 Definition wit_outer_msgpack : list N :=
@@ -1265,57 +1066,73 @@ Definition wit_es : list entry := map op_entry wit_ops.
 Definition wit_pos : nat := 47.     (* lowest byte of the second entry's length field (0x58) *)
 Definition wit_byte : N := 32.      (* 0x20 *)
 
-Lemma wit_read :
-  read_all crc32 classify_shape (set_byte wit_pos wit_byte (file crc32 wit_es)) =
+(* the reader before 591fc4b: a fabricated row-format entry for database "other" *)
+Lemma wit_read_old :
+  read_all_old crc32 classify_shape max_payload (set_byte wit_pos wit_byte (file crc32 wit_es)) =
   FOk [ mkR 1700000000000000 KCol [] (unhex "82a16da3637075a7636f6c756d6e7381a176920102"%bs);
         mkR 1700000000000001 KRow [] wit_evil;
         mkR 1700000000000003 KRow [] (unhex "9183a95f6461746162617365a46d796462ac5f6d6561737572656d656e74a36d656da17507"%bs) ] 1.
 Proof. vm_compute. reflexivity. Qed.
 
-Theorem corruption_refuted :
+(* the reader now: it stops at the damaged entry *)
+Lemma wit_read_now :
+  read_all crc32 classify_shape max_payload (set_byte wit_pos wit_byte (file crc32 wit_es)) =
+  FOk [ mkR 1700000000000000 KCol [] (unhex "82a16da3637075a7636f6c756d6e7381a176920102"%bs) ] 1.
+Proof. vm_compute. reflexivity. Qed.
+
+Theorem old_continue_fabricates :
   exists es i b res c,
-    Forall wf_entry es /\ no_panic classify_shape es /\ b < 256 /\ (i < length (file crc32 es))%nat /\
-    read_all crc32 classify_shape (set_byte i b (file crc32 es)) = FOk res c /\
+    Forall (wf_entry max_payload) es /\ b < 256 /\ (i < length (file crc32 es))%nat /\
+    read_all_old crc32 classify_shape max_payload (set_byte i b (file crc32 es)) = FOk res c /\
     ~ payloads_ok classify_shape res es.
 Proof.
   exists wit_es, wit_pos, wit_byte. eexists. eexists.
   split; [apply wf_entryb_sound; vm_compute; reflexivity|].
-  split; [apply no_panicb_sound; vm_compute; reflexivity|].
   split; [reflexivity|].
   split; [vm_compute; lia|].
-  split; [apply wit_read|].
+  split; [apply wit_read_old|].
   unfold payloads_ok. intros Hs. apply sublist_incl in Hs.
-  specialize (Hs (KRow, [], wit_evil)). 
+  specialize (Hs (KRow, [], wit_evil)).
   assert (Hin : In (KRow, @nil N, wit_evil) (map strip (emitted classify_shape wit_es))).
   { apply Hs. cbn [map strip r_kind r_db r_data]. right. left. reflexivity. }
   vm_compute in Hin. intuition discriminate.
 Qed.
 
-(* the witness log is outside the guard: it contains a ghost frame (certificate: payload offset
-   32 of the second entry, length 40) and the damaged byte is a length byte *)
-Lemma wit_has_ghost : ghost_cert crc32 classify_shape wit_es (37 + 16 + 32) 40 = true.
-Proof. vm_compute. reflexivity. Qed.
-
-Lemma wit_in_len_field : in_len_field crc32 wit_pos wit_es = true.
-Proof. vm_compute. reflexivity. Qed.
-
-(* all hypotheses of corruption_guarded are satisfiable together, for a length-field position:
-   toy checksum (provably detects single-byte changes), a one-entry log without ghosts *)
+(* all premises of `corruption` are satisfiable together, for a length-field position: toy
+   checksum (provably detects single-byte changes), a one-entry log *)
 Definition tiny_es : list entry := [mkEntry 5 [144]].
 
-Lemma tiny_ghost_free : ghost_free crc_sum classify_shape tiny_es.
+Lemma tiny_alias_free : length_alias_free crc_sum max_payload tiny_es.
 Proof.
-  intros p len [H1 [H2 [H3 H4]]].
-  assert (Hl : length (frames crc_sum tiny_es) = 17%nat) by reflexivity. rewrite Hl in H1.
-  assert (Hc : ((p = 0 /\ len = 1) \/ (p = 0 /\ len = 0) \/ (p = 1 /\ len = 0))%nat) by lia.
-  destruct Hc as [[-> ->]|[[-> ->]|[-> ->]]].
-  - exists [], (mkEntry 5 [144]), []. repeat split.
-  - vm_compute in H3. discriminate.
-  - vm_compute in H3. discriminate.
+  intros pre e post len' Hes Hne Hle Hmax.
+  destruct pre as [|x pre].
+  - inversion Hes; subst e post. cbn in Hle, Hne. assert (len' = 0)%nat by lia. subst. vm_compute. discriminate.
+  - inversion Hes as [[Hx Hp]]. destruct pre; discriminate Hp.
 Qed.
 
-(* a CRC-valid payload 01 FF FD .. makes ParseEnvelope's uint16 length arithmetic wrap: the
-   reader panics, even on an intact file *)
-Lemma envelope_wrap_panics :
-  read_all crc32 classify_shape (file crc32 [mkEntry 7 [1; 255; 253; 0]]) = FPanic.
+(* the proviso of `corruption` cannot simply be dropped, even for the reader as it is now: a
+   payload whose first 14 bytes have the same CRC-32 as all 18 (four forged trailing bytes) and
+   one changed length byte (18 -> 14) make the reader return the 14-byte prefix as the payload.
+   (It decodes to the same content - a msgpack decoder stops at the end of the document - so
+   this is a difference in bytes only; see checks/C06.json.) *)
+Definition alias_es : list entry := [mkEntry 9 (unhex "82a16da163a7636f6c756d6e73805e89b259"%bs)].
+
+Lemma alias_read :
+  read_all crc32 classify_shape max_payload (set_byte 10 14 (file crc32 alias_es)) =
+  FOk [mkR 9 KCol [] (unhex "82a16da163a7636f6c756d6e7380"%bs)] 0.
 Proof. vm_compute. reflexivity. Qed.
+
+Lemma alias_not_free : ~ length_alias_free crc32 max_payload alias_es.
+Proof.
+  intros H. apply (H [] (mkEntry 9 (unhex "82a16da163a7636f6c756d6e73805e89b259"%bs)) [] 14%nat); try reflexivity.
+  - vm_compute. discriminate.
+  - vm_compute. lia.
+  - vm_compute. discriminate.
+Qed.
+
+(* a CRC-valid payload 01 FF FD .. no longer makes ParseEnvelope's length arithmetic wrap: it is
+   not an envelope (the database name would not fit), the payload is handed to msgpack as is *)
+Lemma envelope_length_no_wrap :
+  parse_envelope [1; 255; 253; 0] = EnvOk [] [1; 255; 253; 0] /\
+  read_all crc32 classify_shape max_payload (file crc32 [mkEntry 7 [1; 255; 253; 0]]) = FOk [] 1.
+Proof. split; vm_compute; reflexivity. Qed.
